@@ -67,8 +67,9 @@ def check_definition(ctx, drv, d, points, pending, stream):
         try:
             with fk.quiet(), gen.LambdifyRecorder():
                 m = fk.ui_model(d, ctx.rng, container)
-                pm = python.compile(m, calibration_map={s: float(points[0]["cal"][s.name]) for s in d.calibration},
-                                    config={"common_subexpression_elimination": cse})
+                # the caller's own dict object, written in REVERSE name order (a dict has no business being sorted)
+                cal_dict = {s: float(points[0]["cal"][s.name]) for s in sorted(d.calibration, key=lambda x: x.name, reverse=True)}
+                pm = python.compile(m, calibration_map=cal_dict, config={"common_subexpression_elimination": cse})
                 prog = gen.program_of_block(pm._impl)
         except Exception as e:  # a valid definition must compile
             ctx.fail(f"compile-raises:{fk.exc_kind(e)}", f"python.compile refuses a valid definition: {e!r}"[:300],
@@ -117,6 +118,19 @@ def check_definition(ctx, drv, d, points, pending, stream):
                         "control": [[k, enc(v)] for k, v in pt["control"].items()]})
             idx = drv.add(req)
             pending.append(("pyrun", idx, dict(case, got=got, rational=rational)))
+        # the calibration a compiled model works with is the one it was compiled with: the caller editing its dict afterwards (to
+        # compile the next model of a sweep) changes nothing about this one
+        if cal_dict and held:
+            for key in list(cal_dict):
+                cal_dict[key] = cal_dict[key] + 3.25
+            pt0 = dict(points[0], cal=points[0]["cal"])
+            try:
+                again = run_model(pm, d, pt0)
+                if again != held[0][1]:
+                    ctx.fail("model-follows-callers-dict", f"after the caller edited the calibration dict it had passed to compile, the compiled model "
+                             f"returns {again} instead of {held[0][1]}", held[0][2])
+            except Exception as e:
+                ctx.fail(f"model-call-raises:{fk.exc_kind(e)}", repr(e)[:300], held[0][2])
         # a result handed out earlier is still what it was after the later evaluations (results are values, not views of a buffer)
         for obj, first, case in held:
             if fk.by_name(obj) != first:
@@ -198,7 +212,9 @@ def flag_variants(ctx):
                     pm = python.compile(m, config={"common_subexpression_elimination": cse, "extra_validation": ev})
             except Exception as e:
                 ctx.fail(f"compile-raises:{fk.exc_kind(e)}", f"python.compile refuses a valid definition: {e!r}"[:300], case0); continue
-            for vals in ((Fr(3, 2), Fr(1, 10 ** 160), Fr(30), Fr(1, 4)), (Fr(-9, 4), Fr(1, 2), Fr(1), Fr(2)), (Fr(1, 10 ** 200), Fr(5, 4), Fr(-28), Fr(0))):
+            for vals in ((Fr(3, 2), Fr(1, 10 ** 160), Fr(30), Fr(1, 4)), (Fr(-9, 4), Fr(1, 2), Fr(1), Fr(2)), (Fr(1, 10 ** 200), Fr(5, 4), Fr(-28), Fr(0)),
+                         # a far input: v*v leaves the double range on the way, v*exp(-v*v) itself is exactly 0
+                         (Fr(1, 2), Fr(1, 4), Fr(3 * 10 ** 160), Fr(1))):
                 pt = {"dt": Fr(1, 8), "cal": {}, "state": {x.name: vals[0], w.name: vals[1], v.name: vals[2]}, "control": {u.name: vals[3]}}
                 case = dict(case0, point=pt_json(pt))
                 ctx.case(case, True); ctx.count("stream=flag-variants")
